@@ -52,6 +52,7 @@ META = {
         {"name": "san", "flavour": "S", "shards": 16},
         {"name": "ref", "flavour": "P", "shards": 4},
         {"name": "suite", "flavour": "S", "shards": 16, "tiers": ["thorough"]},
+        {"name": "cov", "flavour": "V", "shards": 1, "tiers": ["thorough"]},
     ],
     "gates": {
         "quick": {"evaluations": 2000, "chaos_actions": 1000, "callbacks_fired": 6000,
@@ -1068,7 +1069,88 @@ def phase_suite(ctx):
             ctx.end()
 
 
+def phase_covwork(ctx):
+    """Worker of phase cov (run in a grandchild so that the clang profile runtime writes
+    its .profraw at process exit)."""
+    push_exception_handler(handler=lambda *a: None, reraise_exceptions=False, main=True)
+    obsapi.push_exception_handler(handler=lambda e: None, reraise_exceptions=False)
+    sys.setrecursionlimit(400)
+    if not ctx.begin("covwork"):
+        return
+    try:
+        for r in range(2):
+            for sc in SCENARIOS:
+                try:
+                    sc(ctx.rng("covsc", sc.__name__, r))
+                except BaseException as e:
+                    if isinstance(e, (KeyboardInterrupt, SystemExit)):
+                        raise
+        for p in range(600):
+            rng = ctx.rng("covprog", p)
+            fz.run_program(rng, "c%d" % p, rng.randint(10, 60), rng.choice([0.0, 0.1, 0.3]))
+        for name in OTHERS:
+            try:
+                mod = importlib.import_module("vf.monitors." + name)
+                mod.run(SubCtx(ctx, name, 0.01, 6))
+            except BaseException as e:
+                if isinstance(e, (KeyboardInterrupt, SystemExit)):
+                    raise
+            finally:
+                gc.set_threshold(700, 10, 10)
+                sys.setrecursionlimit(400)
+    finally:
+        ctx.end()
+
+
+def phase_cov(ctx):
+    """Evidence only: which functions / lines / branches of ctraits.c a slice of the san
+    workload reaches (clang source-based coverage build)."""
+    import glob
+    import json as _json
+    if not ctx.begin("cov:driver"):
+        return
+    try:
+        import traits.ctraits as ct
+        snap = os.environ["VF_SNAPSHOT"]
+        out = os.path.join(snap, "covwork.jsonl")
+        subprocess.run([sys.executable, "-m", "vf.child", "C18", "--tier", ctx.tier, "--seed", str(ctx.seed),
+                        "--phase", "covwork", "--shard", "0", "--nshards", "1", "--out", out],
+                       capture_output=True, timeout=3000)
+        raws = [f for f in glob.glob(os.path.join(snap, "cov-*.profraw")) if os.path.getsize(f) > 0]
+        prof = os.path.join(snap, "cov.profdata")
+        subprocess.run(["llvm-profdata-14", "merge", "-sparse"] + raws + ["-o", prof], check=True,
+                       capture_output=True)
+        r = subprocess.run(["llvm-cov-14", "export", "-summary-only", "-instr-profile", prof, ct.__file__],
+                           capture_output=True, text=True, check=True)
+        tot = _json.loads(r.stdout)["data"][0]["totals"]
+        ctx.note("ctraits_coverage_of_cov_phase", {
+            k: {"covered": tot[k]["covered"], "count": tot[k]["count"]}
+            for k in ("functions", "lines", "branches") if k in tot})
+        r2 = subprocess.run(["llvm-cov-14", "report", "-show-functions", "-instr-profile", prof,
+                             ct.__file__, os.path.join(snap, "traits", "ctraits.c")],
+                            capture_output=True, text=True)
+        unreached = []
+        for line in r2.stdout.splitlines():
+            parts = line.split()
+            if len(parts) >= 4 and parts[3] == "0.00%":
+                nm = parts[0].split(":")[-1]
+                if nm.replace("_", "").isalnum():
+                    unreached.append(nm)
+        ctx.note("ctraits_functions_not_reached_by_cov_phase", unreached[:150])
+        ctx.count("coverage_reports")
+        ctx.ev()
+        ctx.sig("cov")
+    except Exception as e:
+        ctx.note("ctraits_coverage_of_cov_phase", "unavailable: %s: %s" % (type(e).__name__, str(e)[:200]))
+    finally:
+        ctx.end()
+
+
 def run(ctx):
+    if ctx.phase == "cov":
+        return phase_cov(ctx)
+    if ctx.phase == "covwork":
+        return phase_covwork(ctx)
     if ctx.phase == "san":
         phase_san(ctx)
     elif ctx.phase == "ref":
